@@ -272,7 +272,7 @@ func verifReachable(schema Schema, want S) bool {
 // a symbolic boolean whether the other goroutine's call runs there, as one atomic block (the running
 // goroutine must not hold a mutex: the other call could block on it).
 
-//verif:instrument pkg/machine/machine.go processQueue queueMutation PrependMut
+//verif:instrument pkg/machine/machine.go processQueue queueMutation PrependMut Eval
 
 var verifPreemptFn func()
 var verifPreemptAt string
